@@ -49,6 +49,42 @@ def source_policy_flags(path, struct):
     return ["1" if flags.get(k) == "true" else "0" for k in order]
 
 
+def replay(ctx, path):
+    """Re-run one recorded case on the real library (current working tree) and re-judge it with the driver.
+    Exit status 1 iff a property clause is still violated and the case matches no open known finding."""
+    ctx.ensure_ppl()
+    drv = ctx.ensure_pplv("pplv_c11")
+    h = ctx.compile_harness("c11_checked.cc", flags=("-frounding-math",))
+    rep = json.load(open(path))
+    case = rep.get("case") or {}
+    print("property=C11 what=%s" % rep.get("what"))
+    plain = case.get("op") in ("neg", "abs", "add", "sub", "mul", "div", "idiv", "rem", "addMul", "subMul", "add2exp",
+                               "sub2exp", "mul2exp", "div2exp", "smod2exp", "umod2exp", "sqrt", "gcd", "lcm")
+    if not plain:
+        print("case of kind %r: replayed by re-running its seed: VERIF_SEED=%s bin/check C11" % (case.get("op"), rep.get("seed")))
+        print(json.dumps(rep, indent=1)[:3000])
+        return 0
+    cmd = "%s --mode one %s %s %s %s %s %s %s %s | %s" % (
+        h, case["T"], case["P"], case["op"], case["dir"], case["to0"], case["x"], case["y"], case["e"], drv)
+    env = dict(os.environ); env["LD_LIBRARY_PATH"] = os.path.join(REPO, "src", ".libs")
+    r = subprocess.run(["bash", "-c", cmd], env=env, stdout=subprocess.PIPE, text=True)
+    bad = False
+    for line in r.stdout.splitlines():
+        if line.startswith(("ok ", "MISMATCH ", "skip ", "CRASH ")):
+            print(line[:600])
+        m = MIS_RE.match(line)
+        if m and set(m.group(2).split("+")) & PROPERTY_OBLIGATIONS:
+            f_ = parse_fields(m.group(3))
+            tags = [t for t in f_.get("tags", "").split(",") if t]
+            k = ctx.match_known({"site": SITE.get(case["op"], case["op"]), "tags": tags})
+            if k is not None:
+                print("KNOWN-FINDING: property=C11 %s [%s]" % (k["what"][:200], k["id"]))
+            else:
+                print("VIOLATION property=C11 replay=%s" % path)
+                bad = True
+    return 1 if bad else 0
+
+
 def run(ctx):
     ctx.ensure_ppl()
     # ---- T1: regenerate the enum tables from the source ---------------------------------------
@@ -65,29 +101,6 @@ def run(ctx):
     # -frounding-math as in PPL's own build: the inline float kernel relies on the run-time rounding mode
     h = ctx.compile_harness("c11_checked.cc", flags=("-frounding-math",))
     wd = ctx.workdir()
-
-    # ---- replay of one recorded case on the real library ---------------------------------------------
-    if ctx.replay:
-        rep = json.load(open(ctx.replay))
-        case = rep.get("case") or {}
-        plain = case.get("op") in ("neg", "abs", "add", "sub", "mul", "div", "idiv", "rem", "addMul", "subMul", "add2exp",
-                                   "sub2exp", "mul2exp", "div2exp", "smod2exp", "umod2exp", "sqrt", "gcd", "lcm")
-        if plain:
-            cmd = "%s --mode one %s %s %s %s %s %s %s %s | %s" % (
-                h, case["T"], case["P"], case["op"], case["dir"], case["to0"], case["x"], case["y"], case["e"], drv)
-            env = dict(os.environ); env["LD_LIBRARY_PATH"] = os.path.join(REPO, "src", ".libs")
-            r = subprocess.run(["bash", "-c", cmd], env=env, stdout=subprocess.PIPE, text=True)
-            print(r.stdout, end="")
-            for line in r.stdout.splitlines():
-                m = MIS_RE.match(line)
-                if m and set(m.group(2).split("+")) & PROPERTY_OBLIGATIONS:
-                    f_ = parse_fields(m.group(3))
-                    tags = [t for t in f_.get("tags", "").split(",") if t]
-                    ctx.violation("replayed: " + line[:400], {"case": f_}, found_input=True,
-                                  record={"site": SITE.get(case["op"], case["op"]), "tags": tags})
-            ctx.cov.update(evaluations=1, distinct_nontrivial=1, rule="replay of one recorded case", samples=[str(case)])
-            return
-        ctx.seed = int(rep.get("seed", ctx.seed))     # conversions / programs / assign: rerun that seed
 
     # ---- the harness's copy of Bounded_Integer_Coefficient_Policy vs the source -------------------
     rc, cfg_out, _ = ctx.run([h, "--mode", "cfg"])
